@@ -29,7 +29,7 @@ VAR_NAMES = ["a", "b", "c", "t", "u", "v", "w", "x", "y", "z", "acc", "tmp", "va
 
 
 class Gen:
-    def __init__(self, seed, max_funcs=2, depth=3, max_stmts=6, allow=(), calls_focus=False, chain=False, tricky_names=False, nested_defs=False, named_consts=False, terminating=False):
+    def __init__(self, seed, max_funcs=2, depth=3, max_stmts=6, allow=(), calls_focus=False, chain=False, tricky_names=False, nested_defs=False, named_consts=False, terminating=False, carried=False):
         self.r = random.Random(seed)
         self.max_funcs, self.depth, self.max_stmts = max_funcs, depth, max_stmts
         self.allow = set(allow)
@@ -43,6 +43,7 @@ class Gen:
         self.named_consts = named_consts  # module-level named constants used as range steps / bounds and as flags guarding statements
         self.terminating = terminating  # the top-level script ends (no final endless loop); functions are leaves with at most one call site
         self.const_decls = {}
+        self.carried = carried  # functions often carry a local round a loop that is only touched in a nested block
         self.nested_defs = nested_defs  # functions may define (and call) a local helper function
         self.chain = chain  # call chains main -> f_n -> ... -> f_1, callees defined first, inner functions reached only through the chain
 
@@ -337,6 +338,10 @@ class Gen:
         self.funcs = callees
         lines = [f"def {name}({', '.join(args)}):"]
         vars_ = list(args)
+        if args and r.random() < 0.25:
+            # a parameter the body never reads (its argument is still passed)
+            vars_.remove(r.choice(args))
+            self.features.add("unused-parameter")
         self.last_mods_global = False
         if self.globals and r.random() < 0.4:
             self.last_mods_global = True
@@ -377,6 +382,22 @@ class Gen:
                 vars_.append(v)
             else:
                 lines.append(f"    {f[0]}({a})")
+        if not self.chain and r.random() < (0.2 if not getattr(self, "carried", False) else 0.7):
+            # a local carried round a loop of this function that is only touched inside a nested block of the loop body,
+            # followed (in the same body) by a statement that needs fresh temporaries
+            self.features.add("carried-in-nested-block")
+            acc, i = self.fresh("acc"), self.fresh("i")
+            lines.append(f"    {acc} = {self.expr(vars_, 1)}")
+            lines.append(f"    for {i} in range({r.randrange(2, 5)}):")
+            lines.append(f"        if {self.cond(vars_ + [i], 1)}:")
+            lines.append(f"            {acc} = {acc} + {self.expr(vars_ + [i], 1)}")
+            lines.append(f"            {r.choice(WRITE_DEVS)}.{r.choice(WRITE_LT)} = {acc}")
+            if r.random() < 0.5:
+                lines.append(f"        else:")
+                lines.append(f"            {acc} = {acc} * 2")
+            # enough fresh temporaries after the nested block to run through the registers freed so far
+            for _ in range(r.randrange(1, 3)):
+                lines.append(f"        {r.choice(WRITE_DEVS)}.{r.choice(WRITE_LT)} = ({self.arg(vars_ + [i], 0)} + {self.arg(vars_ + [i], 0)}) * {r.choice([2, 3, i])}")
         if r.random() < (0.4 if not self.chain else 0.2) and not tailcall:
             self.features.add("early-return")
             lines += [f"    if {self.cond(vars_, 1)}:"] + self.block(vars_, "        ", 1, r.randrange(0, 2), None, name) + self.ret(vars_, returns, "        ")
@@ -497,11 +518,12 @@ class Gen:
             if made:
                 self.features.add(f"functions:{len(made)}")
             return "\n".join(self._with_consts(lines)) + "\n"
-        pre = self.block(vars_, "", 1, r.randrange(0, 3) if not self.chain else 0)
+        small_main = self.chain or self.carried
+        pre = self.block(vars_, "", 1, r.randrange(0, 3) if not small_main else 0)
         lines += pre
         lines.append("while True:")
         # chain mode: a tiny main loop (temporaries inside 'while True' live for the whole loop; four call levels share 16 registers)
-        body = self.block(vars_, "    ", self.depth if not self.calls_focus else 1, r.randrange(1, self.max_stmts if not self.calls_focus else 3) if not self.chain else r.randrange(0, 2))
+        body = self.block(vars_, "    ", self.depth if not self.calls_focus else 1, r.randrange(1, self.max_stmts if not self.calls_focus else 3) if not small_main else r.randrange(0, 2))
         # every defined function is called at least once from the top-level code (otherwise it may emit nothing)
         for f in made:
             if self.chain and any(f"{f[0]}(" in l for l in defs if not l.startswith(f"def {f[0]}(")):
